@@ -80,7 +80,7 @@ def r05_1(ctx: Ctx):
     c02.r02_8_selection(ctx)
     # the evaluation routine does not touch the point before calling the objective
     tw = roles.task_wrapper
-    ex2 = ctx.explorer(inline=lambda f, st: f is tw)
+    ex2 = ctx.explorer(inline=lambda f, st: roles.in_tw(f))
     pcs = roles.problem_calcs
     for p in C.normal_paths(ex2.explore(er)):
         calls = C.call_events(p, among=pcs)
